@@ -410,7 +410,15 @@ func genBurstScenario(t *rapid.T) *Scenario {
 	}
 	single := func(label string) *WOp {
 		w := &WOp{Kind: "noti", T: rapid.IntRange(0, sc.Targets-1).Draw(t, label+"t")}
-		switch rapid.IntRange(0, 9).Draw(t, label+"shape") {
+		switch rapid.IntRange(0, 10).Draw(t, label+"shape") {
+		case 10:
+			// an atomic container (one leaf carrying 2-3 updates) reported again and again under one prefix
+			w.Atomic = true
+			w.Prefix = []gn.Elem{{Name: rapid.SampledFrom([]string{"a", "b"}).Draw(t, label+"aprefix")}}
+			nu := rapid.IntRange(2, 3).Draw(t, label+"anu")
+			for i := 0; i < nu; i++ {
+				w.Updates = append(w.Updates, Upd{Path: []gn.Elem{{Name: []string{"x", "y", "z"}[i]}}, Val: genVal(t)})
+			}
 		case 0:
 			w.Deletes = [][]gn.Elem{genElems(t, 1, 2, true)}
 			w.Pick = rapid.IntRange(0, 3).Draw(t, label+"pick")
